@@ -69,8 +69,6 @@ def run_concern(pid: str, tier: str, seed: int, runs=None) -> dict:
                 continue
             if pid == 'C08' and not any(c.base is not None for c in m.complex.values()):
                 continue
-            if pid == 'C09' and len({k[0] for k in list(m.complex) + list(m.simple) + list(m.elements)}) < 2:
-                continue
             models[p] = m
         except M.Unsupported as e:
             skipped.append(f'{rel_of(p, seed)}: outside the subset ({e})')
